@@ -182,6 +182,23 @@ def note_words(task):
                 if len(vs) < 4:
                     vs.append(C.viol("note-subfield-setter-touches-other-field", {"sub": sub}, {"old": old, "new": new},
                                      {"note_word": [sub, old, new]}))
+        # values wider than the 8-bit half: read back masked or clamped, the other half and the 16-bit width intact
+        for new in (256, 0x1FF, 0x1234, 0xFFFF, -1):
+            n += 1
+            nt.note, nt.vel, nt.module, nt.ctl, nt.val = 5, 7, 9, 0x1234, 0x4321
+            setattr(nt, word_attr, old)
+            try:
+                setattr(nt, sub, new)
+            except Exception:
+                continue                      # refusing an out-of-width value is also fine
+            word = getattr(nt, word_attr)
+            own = (word >> 8) & 0xFF if hi else word & 0xFF
+            other = word & 0xFF if hi else (word >> 8) & 0xFF
+            other_old = old & 0xFF if hi else (old >> 8) & 0xFF
+            if not (0 <= word <= 0xFFFF) or other != other_old or own not in (new & 0xFF, max(0, min(new, 0xFF))):
+                if len(vs) < 4:
+                    vs.append(C.viol("note-subfield-wide-value-spills", {"sub": sub},
+                                     {"old_word": old, "new": new, "word": word}, {"note_word": [sub, old, new]}))
     return n, vs
 
 
@@ -210,6 +227,28 @@ def vis_words(task):
                                         vs.append(C.viol("visualization-subfield-setter", {"field": f, "reserved": bool(reserved)},
                                                          {"old": hex(old), "new": v, "word": hex(got & 0xFFFFFFFF), "expected": hex(exp)},
                                                          {"vis": [old, f, v]}))
+                            if size not in (0, 12, 255):
+                                continue
+                            # values WIDER than the field: read back clamped or masked to the width, and every other
+                            # sub-field (and the reserved bits) unchanged
+                            for v in (mask + 1, (mask + 1) * 8, (mask + 1) * 8 + 1, 0xFFFF, -1):
+                                n += 1
+                                w = Visualization(old)
+                                try:
+                                    setattr(w, f, v)
+                                except Exception as e:
+                                    if len(vs) < 4:
+                                        vs.append(C.viol("visualization-wide-value-raises", {"field": f, "exc": type(e).__name__},
+                                                         {"old": hex(old), "new": v}, {"vis": [old, f, v]}))
+                                    continue
+                                got = int(w)
+                                others = ~(mask << shift) & 0xFFFFFFFF
+                                own = (got >> shift) & mask
+                                ok_own = own in ((v & mask), max(0, min(v, mask)))
+                                if (got & others) != (old & others) or not ok_own or got < 0 or got > 0xFFFFFFFF:
+                                    if len(vs) < 4:
+                                        vs.append(C.viol("visualization-wide-value-spills", {"field": f, "reserved": bool(reserved)},
+                                                         {"old": hex(old), "new": v, "word": hex(got)}, {"vis": [old, f, v]}))
     return n, vs
 
 
